@@ -15,10 +15,12 @@ BOXES = [([0.0, 0.0, 0.0], [1.0, 1.0, 1.0]),
          ([-2.5, 0.25, 2.0], [-0.5, 1.0, 2.75]),
          ([-3.0, -3.0, -3.0], [7.3, math.pi, 1.0]),
          # interior grid coordinates of one dimension coincide with domain bounds of another (1 = b_0 is interior in dim 1, 0 = a_0 is interior in dim 2)
-         ([0.0, 0.0, -1.0], [1.0, 2.0, 1.0])]
+         ([0.0, 0.0, -1.0], [1.0, 2.0, 1.0]),
+         # far away from the origin: grid spacings are far below 1e-5 * |a| (numpy's default relative tolerance), see the fixed points_not_zero defect
+         ([100000.0, 100000.0, 100000.0], [100001.0, 100002.0, 100000.5])]
 
-BOUND = ("real StandardCombi with TrapezoidalGrid + Integration; d in {1,2,3}; 1<=lmin<=lmax<=4 (d=3: lmax<=3); 4 boxes (unit, negative/non-unit "
-         "anisotropic, [-3,7.3]x[-3,pi]x[-3,1], [0,1]x[0,2]x[-1,1] whose interior coordinates coincide with bounds of other dimensions); boundary points on/off; quick: every (d,lmin,lmax,boundary) on one box (rotating) and "
+BOUND = ("real StandardCombi with TrapezoidalGrid + Integration; d in {1,2,3}; 1<=lmin<=lmax<=4 (d=3: lmax<=3); 5 boxes (unit, negative/non-unit "
+         "anisotropic, [-3,7.3]x[-3,pi]x[-3,1], [0,1]x[0,2]x[-1,1] whose interior coordinates coincide with bounds of other dimensions, [1e5,1e5+1]x[1e5,1e5+2]x[1e5,1e5+0.5] far from the origin); boundary points on/off; quick: every (d,lmin,lmax,boundary) on one box (rotating) and "
          "(lmin,lmax) in {(1,2),(2,3)} on every box; thorough: every combination. Per configuration ALL nodal unit functions and ALL "
          "hierarchical hat functions of the sparse grid and one smooth function are used (one vector-valued Function with 2N+1 outputs, N = number "
          "of sparse-grid points); evaluation points: every sparse-grid point, 24 fixed off-grid probe points (incl. points on coarse grid lines and near "
